@@ -99,6 +99,26 @@ class Poly:
                 s.add(a)
         return s
 
+    def atoms_deep(self):
+        """all atoms, including those inside the arguments of other atoms"""
+        out = set()
+        stack = [self]
+        while stack:
+            x = stack.pop()
+            if isinstance(x, Poly):
+                for k in x.t:
+                    for a, _ in k:
+                        if a not in out:
+                            out.add(a)
+                            if a[0] == "f":
+                                stack.extend(a[2:])
+            elif isinstance(x, tuple):
+                if len(x) == 2 and x[0] == "P" and isinstance(x[1], Poly):
+                    stack.append(x[1])
+                else:
+                    stack.extend(y for y in x if isinstance(y, (tuple, Poly)))
+        return out
+
     def __repr__(self):
         if self._repr is None:
             self._repr = self._mkrepr()
@@ -1339,6 +1359,9 @@ def _eval_atom(a, env):
         return int(bool(ev(args[0])) or bool(ev(args[1])))
     if fn == "not":
         return int(not bool(ev(args[0])))
+    if fn in ("bitxor", "bitand", "bitor"):
+        x, y = int(ev(args[0])), int(ev(args[1]))
+        return {"bitxor": x ^ y, "bitand": x & y, "bitor": x | y}[fn]
     if fn == "abs_diff":
         return abs(ev(args[0]) - ev(args[1]))
     if fn == "abs":
